@@ -42,6 +42,10 @@ func RunC09(c *lib.Ctx) {
 		if i%4 >= 2 {
 			scens[i].Before = r.Range(0, 2) // go down very early
 		}
+		if i == n-1 {
+			// boundary: a brand-new node is transferred a log that holds exactly one event, inserted alone
+			scens[i] = c09scen{ID: fmt.Sprintf("s%d", i), Kind: "new-one-event", Before: 1, While: 0, After: r.Range(3, 8), ViaLead: true, Seed: r.Uint64()}
+		}
 	}
 	parallelN(n, 2, func(i int) {
 		sc := scens[i]
@@ -76,9 +80,10 @@ func runC09Scenario(c *lib.Ctx, sc c09scen, attempt int) (string, string) {
 	r := lib.NewRand(sc.Seed)
 	mod := func(cf *NodeCfg) { cf.TrailingLogs = 0; cf.SnapshotThreshold = 1 << 40 }
 	nodes := 3
-	if sc.Kind == "new" {
+	if sc.Kind == "new" || sc.Kind == "new-one-event" {
 		nodes = 2
 	}
+	oneEvent := sc.Kind == "new-one-event"
 	lc, err := bringUp(c.Dir(fmt.Sprintf("%s-a%d", sc.ID, attempt)), nodes, mod)
 	defer lc.CloseAll()
 	if err != nil {
@@ -94,7 +99,11 @@ func runC09Scenario(c *lib.Ctx, sc c09scen, attempt int) (string, string) {
 			if ld == nil {
 				return false
 			}
-			if err := rl.add(ld, sc.ID, r.Pick(1, 1, 2, 5, 13), r.Bool()); err != nil {
+			size := r.Pick(1, 1, 2, 5, 13)
+			if oneEvent && len(rl.Events) == 0 {
+				size = 1
+			}
+			if err := rl.add(ld, sc.ID, size, r.Bool()); err != nil {
 				if u, ok := err.(*unknownOutcome); ok {
 					if _, rerr := rl.resolve(lc, u); rerr != nil {
 						return false
@@ -135,7 +144,7 @@ func runC09Scenario(c *lib.Ctx, sc c09scen, attempt int) (string, string) {
 		}
 		c.Count("forced_snapshots", 1)
 	}
-	if !load(2) {
+	if !oneEvent && !load(2) {
 		return "inconclusive", "load after compaction"
 	}
 	ld := lc.leader()
@@ -338,8 +347,12 @@ func runC09Fetch(c *lib.Ctx) {
 		switch kind {
 		case 1: // follower's WAL position is ahead of what it says it applied (duplicates offered)
 			lastEntry = r.Intn(p + 1)
-		case 2: // gap: WAL position skips entries the follower does not have
-			startEntry = p + 1 + r.Intn(nEntries-p)
+		case 2: // gap: the stream can only start after entries the follower does not have (at least one batch left to send)
+			if p+1 >= nEntries {
+				kind = 0
+				break
+			}
+			startEntry = p + 1 + r.Intn(nEntries-p-1)
 		case 3: // follower claims to have applied more than it holds
 			lastEntry = p + 1 + r.Intn(nEntries-p)
 		}
@@ -384,6 +397,10 @@ func runC09Fetch(c *lib.Ctx) {
 			}
 		}
 		c.Count("fetch_streams_applied", 1)
+		if kind != 3 && match >= 0 && match != nEntries {
+			// the call reported success, so the follower goes on from "the snapshot's state": it must be there
+			c.Violation("C09:fetch:success-without-reaching-the-snapshot:"+shape, fmt.Sprintf("FetchSnapshot(start=seq after entry %d, end=last, lastApplied=version after entry %d) returned no error and streamed %d chunks, but a follower holding entries 1..%d ends up holding entries 1..%d instead of all %d (a gap was neither refused nor filled)", startEntry, lastEntry, len(chunks), p, match, nEntries), map[string]interface{}{"id": "fetch", "follower_entries": p, "start_entry": startEntry, "last_applied_entry": lastEntry})
+		}
 		if match < 0 && kind == 3 {
 			// the follower claimed to have applied more than it holds: the leader cannot know; information only
 			c.Count("fetch_follower_claimed_more_than_it_holds(result_has_gap)", 1)
